@@ -151,6 +151,43 @@ def sites(fn: ast.AST) -> list[tuple[str, ast.AST, ast.AST | None, str]]:
     return out
 
 
+STRUCT_MUTATORS = {"append", "extend", "insert", "remove", "pop", "popitem", "clear", "add", "discard", "update", "popleft", "appendleft", "sort", "reverse"}
+
+
+def mutated_while_iterated(fn: ast.AST) -> list[tuple[ast.AST, ast.AST]]:
+    """(for statement, mutation): the collection a `for` iterates directly (`xs`, `self.xs`, `d.items()`) is structurally
+    changed in the loop body and the loop can go on to another iteration afterwards (skipped / repeated elements for a
+    list, RuntimeError for a dict or set)."""
+    out = []
+    cfg = None
+    for w in walk_local(fn):
+        if not isinstance(w, (ast.For, ast.AsyncFor)):
+            continue
+        it = unparse(w.iter)
+        if not re.fullmatch(r"[\w.]+(\.(items|keys|values)\(\))?", it):
+            continue
+        base = re.sub(r"\.(items|keys|values)\(\)$", "", it)
+        for b in w.body:
+            for x in ast.walk(b):
+                hit = None
+                if isinstance(x, ast.Call) and isinstance(x.func, ast.Attribute) and x.func.attr in STRUCT_MUTATORS and unparse(x.func.value) == base:
+                    hit = x
+                if isinstance(x, ast.Delete) and any(isinstance(t, ast.Subscript) and unparse(t.value) == base for t in x.targets):
+                    hit = x
+                if hit is None:
+                    continue
+                if cfg is None:
+                    cfg = CFG(fn)  # type: ignore[arg-type]
+                try:
+                    h, m = cfg.node_of(w), cfg.node_of(hit)
+                except AnalysisError:
+                    continue
+                inside = {cfg.owner[id(y)] for y in ast.walk(w) if id(y) in cfg.owner}
+                if cfg.path_avoiding(m, h, lambda n_: n_.id not in inside, follow_exc=False) is not None:
+                    out.append((w, hit))
+    return out
+
+
 def check(idx: Index, rep: Report, prop: str) -> None:
     r = rep.rule(f"{prop}.I1", "no one-shot iterator (zip / map / filter / reversed / iter / enumerate / generator expression, or a parameter declared Iterable / Iterator) is traversed twice in one function of the anchored code", floor=None)
     pos1 = ast.parse("def f(a, b):\n    pairs = zip(a, b)\n    if any(x < 0 for x, _ in pairs):\n        raise ValueError\n    for x, y in pairs:\n        g(x, y)\n").body[0]
@@ -158,7 +195,11 @@ def check(idx: Index, rep: Report, prop: str) -> None:
     neg = ast.parse("def f(a, b):\n    pairs = list(zip(a, b))\n    if any(x < 0 for x, _ in pairs):\n        raise ValueError\n    for x, y in pairs:\n        g(x, y)\n    for i in range(3):\n        for q in zip(a, b):\n            g(q, i)\n").body[0]
     if len(sites(pos1)) != 1 or len(sites(pos2)) != 1 or sites(neg):
         raise AnalysisError("one-shot iterator detector fails its positive / negative examples")
-    r.ok("self-check", "zip consumed by any() then by a for loop; reversed() consumed inside a while loop: recognised; list(zip()) twice: not reported")
+    pos3 = ast.parse("def f(self):\n    for u in self.users:\n        if dead(u):\n            self.users.remove(u)\n").body[0]
+    neg3 = ast.parse("def f(self):\n    for u in self.users:\n        if dead(u):\n            self.users.remove(u)\n            break\n    for u in list(self.users):\n        self.users.remove(u)\n").body[0]
+    if len(mutated_while_iterated(pos3)) != 1 or mutated_while_iterated(neg3):
+        raise AnalysisError("mutation-while-iterating detector fails its positive / negative example")
+    r.ok("self-check", "zip consumed by any() then by a for loop; reversed() consumed inside a while loop; a list changed inside the loop over it: recognised; list(zip()) twice, removal followed by break, loop over a copy: not reported")
     nfun = 0
     for rel in lint_files(prop, idx):
         try:
@@ -168,6 +209,8 @@ def check(idx: Index, rep: Report, prop: str) -> None:
         for f in mi.functions.values():
             nfun += 1
             fn = f.raw_node
+            for w, hit in mutated_while_iterated(fn):
+                r.fail(f"{rel}:{f.qualname}:mutated@{w.lineno - fn.lineno}", Finding(f"{prop}.I1", f.fq, f"mutated-while-iterated:{unparse(w.iter)[:40]}", f"`{unparse(hit)[:60]}` (line {hit.lineno}) changes the collection that `for {unparse(w.target)} in {unparse(w.iter)[:40]}` is iterating, and the loop goes on afterwards: a list skips the element after a removal (or visits appended ones), a dict / set raises RuntimeError", f"{rel}:{hit.lineno}"))
             for nm, c1, c2, how in sites(fn):
                 inst = f"{rel}:{f.qualname}:{nm}"
                 if (rel, f.qualname, nm) in REVIEWED and how.startswith("parameter"):
